@@ -1,4 +1,5 @@
 import Tickit.Proof.WinInput
+import Tickit.Proof.WinInputSafe
 import Tickit.Gen.WinInputCfg
 /-
   C14 — Input reaches the front-most eligible window first, in its own coordinates.
@@ -23,7 +24,11 @@ import Tickit.Gen.WinInputCfg
                                                                      `next_freed_ub_counterexample`, `claim_withdrawn_counterexample`,
                                                                      `hidden_descendant_counterexample`
          the repaired code on the same histories ................... `repaired_*` below
-         the general statement ..................................... `mutation_safe_full` (def, open: see engines.d/C14.json)
+         the repaired code, every state and every behaviour table whose handlers close, unref, ref, hide, show or
+         change steal-input (no restack request pending) ........... `mutation_safe` (no undefined behaviour, and the
+                                                                     store invariant `AInv` is re-established)
+         the general statement (also restacking and take_focus from inside handlers, pending restack requests,
+         every reachable state) .................................... `mutation_safe_full` (def, open: see engines.d/C14.json)
 -/
 namespace Tickit.Props.C14
 open Tickit Tickit.WinTree Tickit.WinInput
@@ -526,6 +531,35 @@ def mutation_safe_full : Prop :=
   ∀ (st : St), Reachable st → ∀ (ev : Ev),
     (emitKey Cfg.repaired st ev).isUb = false ∧ (emitMouse Cfg.repaired st ev).isUb = false
 
+/-- **mutation_safe** (covered mutations).  Take any application state that satisfies the store invariant `AInv`
+    with no dispatcher reference outstanding — children and parent pointers agree, focus pointers point to children,
+    no duplicates, closed windows are detached, the drag source is live, every live window's reference count is what
+    the application owns, a window the application let go of has no children, nothing is queued for restacking —
+    and any behaviour tables whose handlers close, unref, ref, hide, show or change steal-input of any windows
+    (`TableOK`; subject to the application rules of the harness).  Then a key or mouse event never makes the repaired
+    routing touch freed memory, dereference NULL or abort: the only non-returning outcomes are the model's own fuel
+    running out (`FuelMsg`, `Out.fuel`); and when it returns, the state satisfies the invariant again, so the next
+    event is covered too. -/
+theorem mutation_safe (st : St) (ev : Ev) (hinv : AInv st []) (htab : TableOK st.binds) :
+    (∀ w, emitKey Cfg.repaired st ev = Out.ub w → FuelMsg w) ∧
+    (∀ w, emitMouse Cfg.repaired st ev = Out.ub w → FuelMsg w) ∧
+    (∀ st', emitKey Cfg.repaired st ev = Out.ok st' → AInv st' [] ∧ TableOK st'.binds) ∧
+    (∀ st', emitMouse Cfg.repaired st ev = Out.ok st' → AInv st' [] ∧ TableOK st'.binds) := by
+  obtain ⟨hk, hm⟩ := emit_safe (st := st) ⟨hinv, htab⟩ ev
+  refine ⟨?_, ?_, ?_, ?_⟩
+  · intro w hw; rw [hw] at hk; exact hk
+  · intro w hw; rw [hw] at hm; exact hm
+  · intro st' hs; rw [hs] at hk; exact hk
+  · intro st' hs; rw [hs] at hm; exact hm
+
+/-- The application's own covered operations keep the invariant as well (here: outside any dispatch). -/
+theorem mutation_safe_actions (st : St) (a : Action) (hinv : AInv st []) (ha : ActOK a) :
+    (∀ w, doAction st a = Res.ub w → FuelMsg w) ∧ (∀ st', doAction st a = Res.ok st' → AInv st' []) := by
+  have h := doAction_safe hinv ha
+  constructor
+  · intro w hw; rw [hw] at h; exact h
+  · intro st' hs; rw [hs] at h; exact h.1
+
 /-! ### the hypotheses of the theorems above are met by real histories (non-vacuity) -/
 
 namespace Scenario
@@ -622,6 +656,24 @@ example :
       | ok p => exact ⟨st, p.1, p.2, rfl, k1, by rw [hx]⟩
       | ub w => rw [hx] at k2; simp [Out.isOk] at k2
       | fuel => rw [hx] at k2; simp [Out.isOk] at k2
+
+open Scenario in
+/-- `mutation_safe`: the histories that broke the unrepaired code start from states that satisfy its hypotheses
+    (checked by the decidable versions of `AInv` and `TableOK`, which are proved sound). -/
+example :
+    (∃ st, threeSiblingsKey .unref = some st ∧ AInv st [] ∧ TableOK st.binds) ∧
+    (∃ st, threeStackedMouse .close = some st ∧ AInv st [] ∧ TableOK st.binds) ∧
+    (∃ st, popupClosesItself = some st ∧ AInv st [] ∧ TableOK st.binds) ∧
+    (∃ st, dragThenHideParent Cfg.repaired = some st ∧ AInv st [] ∧ TableOK st.binds) := by
+  have key : ∀ (o : Option St), (o.map fun s => ainvCheck s && tableCheck s.binds) = some true →
+      ∃ st, o = some st ∧ AInv st [] ∧ TableOK st.binds := by
+    intro o h
+    cases o with
+    | none => simp at h
+    | some st =>
+      simp only [Option.map_some, Option.some.injEq, Bool.and_eq_true] at h
+      exact ⟨st, rfl, ainvCheck_sound h.1, tableCheck_sound h.2⟩
+  exact ⟨key _ (by decide +kernel), key _ (by decide +kernel), key _ (by decide +kernel), key _ (by decide +kernel)⟩
 
 /-- `mutation_safe_full`: reachable states exist, beyond the fresh one, and events return in them. -/
 example : ∃ st, Reachable st ∧ st.tree.wins.size = 2 :=
